@@ -745,6 +745,12 @@ def _transfer_block(body, b, st, var):
             pat = R.origin(body, t["args"][1], carriers={}) if len(t["args"]) > 1 else ("unknown",)
             nonempty = pat[0] == "const" and (len(pat[1].get("str", "")) >= 1 or "char" in pat[1])
             st[(d[0], ("as Some", ".0"))] = STRICT if (nonempty or a0 == STRICT) else max(a0, SUFFIX)
+        elif last == "split_once" and a0 != UNKNOWN:
+            # Option<(&str, &str)>: what follows the (non-empty) delimiter is a strictly shorter suffix
+            pat = R.origin(body, t["args"][1], carriers={}) if len(t["args"]) > 1 else ("unknown",)
+            nonempty = pat[0] == "const" and (len(pat[1].get("str", "")) >= 1 or "char" in pat[1])
+            st[(d[0], ("as Some", ".0", ".1"))] = STRICT if (nonempty or a0 == STRICT) else max(a0, SUFFIX)
+            st[(d[0], ("as Some", ".0", ".0"))] = UNKNOWN
         elif last in ("trim_start", "trim_start_matches") and a0 != UNKNOWN:
             v = max(a0, SUFFIX)
         elif last in ("deref", "as_str", "as_ref", "borrow", "clone") and a0 != UNKNOWN:
